@@ -57,19 +57,20 @@ def tf(b):
     return "TRUE" if b else "FALSE"
 
 
-def cfg_model(kind, maxreq, dev, invs, behs=None):
+def cfg_model(kind, maxreq, dev, invs, behs=None, reqs=None):
     return """SPECIFICATION Spec
 CONSTANTS
   Kinds = {"%s"}
   Behs = %s
   Holds = {FALSE}
   MaxReq = %d
+  Reqs = %s
   DevStopNilDeref = %s
   DevReaperField = %s
   Known <- KnownSet
 INVARIANTS %s
 CHECK_DEADLOCK FALSE
-""" % (kind, tla_set(behs or BEHS), maxreq, tf(dev[0]), tf(dev[1]), " ".join(invs))
+""" % (kind, tla_set(behs or BEHS), maxreq, tla_set(reqs or REQS), tf(dev[0]), tf(dev[1]), " ".join(invs))
 
 
 def cfg_gen(dev):
@@ -79,6 +80,7 @@ CONSTANTS
   Behs = %s
   Holds = {TRUE, FALSE}
   MaxReq = 6
+  Reqs = {}
   DevStopNilDeref = %s
   DevReaperField = %s
   Known = {}
@@ -95,6 +97,7 @@ CONSTANTS
   Behs = %s
   Holds = {TRUE, FALSE}
   MaxReq = 8
+  Reqs = {}
   DevStopNilDeref = %s
   DevReaperField = %s
   Known = {}
@@ -171,16 +174,21 @@ def run(ctx):
 
     # 1. exhaustive model checking, per task kind; violations outside the classes of open findings are new
     invs = ["TypeOK", "OneTerminalX", "KilledNotFailedX", "NoSurvivorsX", "ExecutorSurvivesX"]
-    bounds = {"basic": 3, "hook": 3, "ctl": 2} if quick else {"basic": 4, "hook": 4, "ctl": 3}
-    # quick: for the shell-script kinds "ignore" behaves like "sleep" (only SIGKILL is ever sent) and exit0 like exit3
-    qbehs = ["sleep", "fork", "exit3", "crash", "noready", "stuck", "ignore", "exit0"]
-    behs_of = {"basic": qbehs[:4], "hook": qbehs[:4], "ctl": BEHS} if quick else {}
+    # for the shell-script kinds "ignore" behaves like "sleep" (only SIGKILL is ever sent) and exit0 like exit3
+    b4 = ["sleep", "fork", "exit3", "crash"]
+    if quick:
+        runs = [("basic", 3, b4, ["START", "STOP", "Kill"]), ("hook", 3, b4, None),
+                ("ctl", 2, ["sleep", "ignore", "fork", "exit3", "noready", "stuck"], None)]
+    else:
+        runs = [("basic", 4, b4, None), ("basic", 3, None, None), ("hook", 4, None, None),
+                ("ctl", 3, ["sleep", "fork", "exit3", "noready", "stuck"], None), ("ctl", 2, None, None)]
     scenarios = []
     predicted_new = []
     sid = 0
-    for kind in KINDS:
-        r = ctx.model_check("ExecTaskMC", None, cfg_text=cfg_model(kind, bounds[kind], dev_stop, invs, behs_of.get(kind)),
-                            files={"ExecTaskMC.tla": mc_module(known)}, workers=WORKERS, timeout=900)
+    for (kind, maxreq, behs, reqs) in runs:
+        r = ctx.model_check("ExecTaskMC", None, cfg_text=cfg_model(kind, maxreq, dev_stop, invs, behs, reqs),
+                            files={"ExecTaskMC.tla": mc_module(known)}, workers=WORKERS, timeout=1500)
+        ctx.model_runs[-1]["cfg"] = "%s MaxReq=%d behs=%s reqs=%s" % (kind, maxreq, ",".join(behs or ["all"]), ",".join(reqs or ["all"]))
         if r.violated:
             inv = r.violated[0][:-1] if r.violated[0].endswith("X") else r.violated[0]
             sid += 1
